@@ -109,10 +109,10 @@ func ExhaustiveCount(k, maxLen int) int {
 }
 
 type sampler struct {
-	t    *rapid.T
-	re2  bool
-	caps map[int][]rune
-	alpha []rune
+	t      *rapid.T
+	re2    bool
+	caps   map[int][]rune
+	alpha  []rune
 	budget int
 }
 
